@@ -395,6 +395,20 @@ def run(ctx):
         jobs.append(('rnd-crash', None, rng3.randrange(2 ** 30), rng3.choice([16, 25, 40]),
                      ('a1', 'a2', 'a3') if k % 3 == 0 else ('a1', 'a2'), 3 if k % 2 else 2,
                      False, k % 4 == 0, True))
+    # the node monitor handles the tombstone of a marker-less (or finished) running container right before
+    # the k-th file-system probe of a synchronisation (readiness flip / manager restart), for every k
+    n_med = 0
+    for variant in ('flip', 'restart'):
+        for dies, marker in (('a1', 'none'), ('a2', 'none'), ('a1', 'exitinfo')):
+            for k in range(1, 13 if ctx.quick else 41):
+                h = [['ReadyOn', []], ['Deliver', []], ['CacheCreate', ['a1']], ['Deliver', []],
+                     ['CacheCreate', ['a2']], ['Deliver', []], ['ContainerFinishes', [dies, 1, marker]]]
+                h += ([['ReadyOff', []], ['Deliver', []], ['ReadyOn', []]] if variant == 'flip'
+                      else [['ManagerRestart', []], ['ReadyOn', []]])
+                h += [['Meddle', [k]], ['Deliver', []], ['Deliver', []]]
+                jobs.append(('meddle', h, 0, 0, (), 0, False))
+                n_med += 1
+    ctx.log('%d histories with the monitor acting inside a synchronisation' % n_med)
     ctx.log('%d histories (%d counterexamples, %d TLC-simulated, %d random, %d random with the '
             'cleanup service, %d random with kills inside handlers)' % (
                 len(jobs), len(cex), len(hist) - len(cex), n_rnd, n_svc, n_crash))
